@@ -321,6 +321,46 @@ def _gene_case(rng, pairs, strands, how, mode, gen, frameshift=False):
     return {"kind": "gene", "gen": gen, "gene": g, "parent": _parent_for(rng, mode, glo, ghi)}
 
 
+def _many_blocks_case(rng, what):
+    """A member whose first child has 100..300 short blocks (more than any block-count threshold a merge could plausibly switch on) and whose
+    other children retain some of the gaps (each swallows 2..6 consecutive blocks, ending inside a block) or add blocks in the gaps."""
+    n = rng.choice([100, 127, 128, 129, 130, 150, 200, 300])
+    strand = rng.choice("+-")
+    base = rng.randint(0, 20)
+    long = [[base + 10 * (j + 1), base + 10 * (j + 1) + rng.randint(3, 6)] for j in range(n)]
+    kids = [long]
+    for _ in range(rng.randint(1, 3)):
+        a = rng.randrange(0, n - 7)
+        k = rng.randint(2, 6)
+        bl = [[long[a][0] + rng.randint(0, 2), long[a + k - 1][0] + rng.randint(1, 3)]]      # ends inside block a+k-1
+        if rng.random() < 0.5 and a + k + 3 < n:
+            bl.append([long[a + k + 1][1] + 1, long[a + k + 2][0] - 1] if rng.random() < 0.5 else list(long[a + k + 2]))     # in a gap / an exon of the long child
+        kids.append(bl)
+    rng.shuffle(kids)
+    glen = base + 10 * (n + 1) + 40
+    mode = rng.choice(MODES)
+    lo, hi = m_span(kids)
+    par = {"mode": mode, "gseed": rng.randrange(1 << 30), "glen": glen}
+    if mode.startswith("chunk"):
+        par["window"] = _window(rng, mode, lo, hi, glen)
+    if what == "gene":
+        txs = []
+        for j, bl in enumerate(kids):
+            t = {"exons": bl, "strand": strand, "cds": None, "frames": None, "transcript_id": f"tx_{j}", "transcript_symbol": f"sym_{j}",
+                 "transcript_type": None, "protein_id": None, "product": None, "is_primary_tx": None, "qualifiers": {}, "guid": None}
+            if len(bl) > 50 and rng.random() < 0.6:
+                a = rng.randrange(0, 5)
+                cds = GG.clip_blocks(bl, bl[a][0] + 1, bl[len(bl) - 1 - rng.randrange(0, 5)][1] - 1)
+                t.update(cds=cds, frames=GG.rand_frames(rng, cds, strand, None, 0), transcript_type="protein_coding", protein_id=f"prot_{j}")
+            txs.append(t)
+        return {"kind": "gene", "gen": "many-blocks", "gene": _gene_wrap(rng, txs), "parent": par}
+    fs = [{"blocks": bl, "strand": strand, "feature_types": sorted(rng.sample(_TYPES, rng.randint(0, 2))), "feature_name": f"feat_{j}", "feature_id": f"fid_{j}",
+           "is_primary_feature": None, "qualifiers": {}, "guid": None} for j, bl in enumerate(kids)]
+    fc = {"features": fs, "feature_collection_name": "fc0", "feature_collection_id": "fcid0", "feature_collection_type": None,
+          "locus_tag": "FLT0", "qualifiers": GG.rand_qualifiers(rng, 1), "guid": None}
+    return {"kind": "fcoll", "gen": "many-blocks", "fcoll": fc, "parent": par}
+
+
 def _fcoll_case(rng, lens, strands, types, how, mode, gen):
     lo = rng.randint(0, 40)
     hi = rng.randint(lo + 80, GLEN)
@@ -607,6 +647,9 @@ def cases(spec, ctx):
         yield _gene_case(srng, pairs, _strands(srng, nn, False), how, srng.choice(MODES), "rand-many-children")
         lens = [srng.randint(1, 20) for _ in range(nn)]
         yield _fcoll_case(srng, lens, _strands(srng, nn, False), _rand_types(srng, nn), srng.choice(["none", "one"]), srng.choice(MODES), "rand-many-children")
+    for k in range(2 if ctx.tier == "quick" else 6):
+        yield _many_blocks_case(srng, "gene")
+        yield _many_blocks_case(srng, "fcoll")
     # ---- (e) families sharing bounds / CDS bounds with different internal structure, every list order ---------------
     for k in range(sc["FAM"] // n + 1):
         yield from _family_gene_cases(rng)
